@@ -34,10 +34,14 @@ func NewStack(via string) (outer *fifo.Group, inner *fifo.Group) {
 	// loops.
 	outer.SetAggregateErrors(true)
 
+	// Framing is judged on the message as received: Transfer-Encoding, and a
+	// Content-Length named in Connection, are gone once the hop-by-hop modifier
+	// has run.
+	outer.AddRequestModifier(header.NewBadFramingModifier())
+
 	hbhm := header.NewHopByHopModifier()
 	outer.AddRequestModifier(hbhm)
 	outer.AddRequestModifier(header.NewForwardedModifier())
-	outer.AddRequestModifier(header.NewBadFramingModifier())
 
 	vm := header.NewViaModifier(via)
 	outer.AddRequestModifier(vm)
